@@ -4,5 +4,6 @@ import WpModel.Drive.PaginateOof
 import WpModel.Drive.PaginateFoot
 import WpModel.Drive.PaginateCol
 import WpModel.Drive.Total
+import WpModel.Drive.C02Extra
 
-def main : IO Unit := Wp.Drive.runDriver [Wp.Drive.Paginate.handle, Wp.Drive.PaginateOof.handle, Wp.Drive.PaginateFoot.handle, Wp.Drive.PaginateCol.handle, Wp.Drive.Total.handle]
+def main : IO Unit := Wp.Drive.runDriver [Wp.Drive.Paginate.handle, Wp.Drive.PaginateOof.handle, Wp.Drive.PaginateFoot.handle, Wp.Drive.PaginateCol.handle, Wp.Drive.Total.handle, Wp.Drive.C02Extra.handle]
